@@ -9,6 +9,7 @@ LEVEL = "translation_validation"
 def run(chk, tier):
     import gflow
     gflow.check_numeric_text(chk)
+    gflow.check_free_text(chk)      # description / semanticType ... traits: text reaches the literal through an exact escaper
     gflow.check_declared_presence(chk)
     import ghaz
     ghaz.check_presence_rules(chk)      # what get_actual_presence may yield per kind of encoding      # presence() traits and everything else follow actual_presence
